@@ -285,7 +285,13 @@ func idx(v ssa.Value, r func(ssa.Value) string) string {
 	if c, ok := v.(*ssa.Const); ok {
 		return constString(c)
 	}
-	return "_"
+	// a data-dependent index is part of the provenance (authorities[vs.Authority]);
+	// loop counters are not
+	s := r(v)
+	if strings.Contains(s, "↺") || strings.Contains(s, "phi(") || strings.Contains(s, "const:-1") || len(s) > 80 {
+		return "_"
+	}
+	return s
 }
 
 func callString(c *ssa.CallCommon, r func(ssa.Value) string) string {
